@@ -109,69 +109,12 @@ func refJoin(k joinKind, l, r *rowBag, width int) stream.Bag {
 	return out
 }
 
-// genScripts enumerates valid per-side scripts: records [key, id] with event
-// times from times, strictly increasing watermarks, records later than the
-// side's last watermark, optional retractions of a still-present earlier row
-// (event time >= the row's insertion time).
 func genScripts(keys []int, times []int, maxLen int, retractions bool, zeroTimes bool) [][]stream.Ev {
-	var out [][]stream.Ev
-	type st struct {
-		evs     []stream.Ev
-		wm      int
-		present []int // indexes into evs of inserts still present
+	o := stream.ScriptOpts{Keys: keys, Times: times, MaxLen: maxLen, Retractions: retractions, UniqueID: true, Watermarks: true}
+	if zeroTimes {
+		o.RecTimes = []int{0}
 	}
-	var rec func(s st)
-	rec = func(s st) {
-		cp := make([]stream.Ev, len(s.evs))
-		copy(cp, s.evs)
-		out = append(out, cp)
-		if len(s.evs) == maxLen {
-			return
-		}
-		for _, t := range times {
-			if t > s.wm {
-				n := s
-				n.evs = append(append([]stream.Ev{}, s.evs...), stream.W(t))
-				n.wm = t
-				rec(n)
-			}
-		}
-		tt := times
-		if zeroTimes {
-			tt = []int{0}
-		}
-		for _, k := range keys {
-			for _, t := range tt {
-				if t != 0 && t <= s.wm {
-					continue
-				}
-				kv := octosql.NewInt(int64(k))
-				if k < 0 {
-					kv = octosql.NewNull()
-				}
-				n := s
-				n.evs = append(append([]stream.Ev{}, s.evs...), stream.R(t, kv, octosql.NewInt(int64(10*len(s.evs)+t))))
-				n.present = append(append([]int{}, s.present...), len(s.evs))
-				rec(n)
-			}
-		}
-		if retractions {
-			for pi, idx := range s.present {
-				ins := s.evs[idx]
-				for _, t := range tt {
-					if t != 0 && (t <= s.wm || stream.T(t).Before(ins.T)) {
-						continue
-					}
-					n := s
-					n.evs = append(append([]stream.Ev{}, s.evs...), stream.Ev{Kind: stream.Rec, Vals: ins.Vals, Retract: true, T: stream.T(t)})
-					n.present = append(append([]int{}, s.present[:pi]...), s.present[pi+1:]...)
-					rec(n)
-				}
-			}
-		}
-	}
-	rec(st{})
-	return out
+	return stream.GenScripts(o)
 }
 
 func consolidateLog(log []stream.Out, upto int) stream.Bag {
